@@ -88,3 +88,117 @@ LOGGING_OFF = [
     (rx(r"(^|::)log_enabled|__private_api::enabled"), const_bool(False)),
     (rx(r"ckb_metrics::handle"), lambda ex, c, a, d: mk_option(False, None, d)),
 ]
+
+
+# ---------------------------------------------------------------- iterators over a concrete list of symbolic items
+def list_source(items, owned=True):
+    """handler: the call returns an iterator over `items` (python list of values)"""
+    from .exec import ListV
+
+    def h(ex, callee, args, dty):
+        return AggV((ListV(tuple(items), "Vec<?>"), IntV(0, "usize")), "ListIter" if owned else "ListIterRef")
+    return h
+
+
+def _iter_into(ex, callee, args, dty):
+    from .exec import ENV_PASS
+    v = deref(ex, args[0])
+    if isinstance(v, AggV) and v.ty.startswith("ListIter"):
+        return v
+    return ENV_PASS
+
+
+def _iter_next(ex, callee, args, dty):
+    from .exec import ENV_PASS, ListV
+    from .builtins import _wr
+    if not isinstance(args[0], RefV):
+        return ENV_PASS
+    it = deref(ex, args[0])
+    if not (isinstance(it, AggV) and it.ty.startswith("ListIter")):
+        return ENV_PASS
+    lst, pos = it.fields
+    if pos.t < len(lst.items):
+        _wr(ex, args[0], AggV((lst, IntV(pos.t + 1, "usize")), it.ty))
+        item = lst.items[pos.t]
+        ex.log.append(("iter_next", callee, [item], list(ex.pc)))
+        return mk_option(True, ex.ctx.ref_to(item) if it.ty == "ListIterRef" else item, dty)
+    return mk_option(False, None, dty)
+
+
+LIST_ITER = [
+    (rx(r" as (?:std::iter::|core::iter::)?IntoIterator>::into_iter$"), _iter_into),
+    (rx(r" as (?:std::iter::|core::iter::)?Iterator>::next$"), _iter_next),
+]
+
+
+# ---------------------------------------------------------------- hash sets of opaque elements
+class SetV:
+    """model of a HashSet whose elements are opaque values compared by an identity term: `base` is the name of an
+    uninterpreted predicate (the unknown initial contents, or None for an initially empty set), `added` the identity
+    terms inserted so far (in order)"""
+    __slots__ = ("base", "added", "ty")
+
+    def __init__(self, base, added=(), ty="HashSet"):
+        self.base = base
+        self.added = tuple(added)
+        self.ty = ty
+
+    def member(self, ctx, x):
+        c = [T.eq(x, y) for y in self.added]
+        if self.base is not None:
+            ctx.uf_decls[self.base] = (T.BOOL, (T.INT,))
+            c.append(T.app(self.base, T.BOOL, x))
+        return T.or_(*c) if c else False
+
+    def __repr__(self):
+        return f"SetV({self.base}, {len(self.added)} added)"
+
+
+def ident(ex, v):
+    """identity term of an opaque element: one Int symbol per opaque name"""
+    v = deref(ex, v)
+    if isinstance(v, IntV):
+        return v.t
+    if isinstance(v, OpaqueV):
+        return ex.ctx.int("id!" + v.name, "u64").t
+    raise Stop(f"set element without identity: {v}")
+
+
+def set_env(elem_rx):
+    """handlers for HashSet::<elem>::{new, insert, contains} and Extend::extend over SetV"""
+    from .builtins import _wr
+
+    def new(ex, callee, args, dty):
+        return SetV(None, (), dty)
+
+    def insert(ex, callee, args, dty):
+        s = deref(ex, args[0])
+        x = ident(ex, args[1])
+        was = s.member(ex.ctx, x)
+        ex.log.append(("set_insert", callee, [s, x, was], list(ex.pc)))
+        _wr(ex, args[0], SetV(s.base, s.added + (x,), s.ty))
+        return BoolV(T.not_(was))
+
+    def contains(ex, callee, args, dty):
+        s = deref(ex, args[0])
+        x = ident(ex, args[1])
+        return BoolV(s.member(ex.ctx, x))
+
+    def extend(ex, callee, args, dty):
+        s = deref(ex, args[0])
+        o = deref(ex, args[1])
+        from .exec import ListV
+        if isinstance(o, ListV):
+            more = tuple(ident(ex, x) for x in o.items)
+        elif isinstance(o, SetV) and o.base is None:
+            more = o.added
+        else:
+            raise Stop("extend with an unknown collection")
+        _wr(ex, args[0], SetV(s.base, s.added + more, s.ty))
+        return UNIT
+    return [
+        (rx(r"HashSet::<" + elem_rx + r"(, \w+)?>::new$"), new),
+        (rx(r"HashSet::<" + elem_rx + r"(, \w+)?>::insert$"), insert),
+        (rx(r"HashSet::<" + elem_rx + r"(, \w+)?>::contains(::<.*>)?$"), contains),
+        (rx(r"<HashSet<" + elem_rx + r"(, \w+)?> as Extend<.*>>::extend"), extend),
+    ]
